@@ -19,8 +19,8 @@ RULE = ('cases = generated raw-API storage programs (store/delete/undo/restore/a
 ASSUMPTIONS = ['tids are recorded from the storage, not predicted; only order and monotonicity are required',
                'for an un-created object both None and POSKeyError are accepted from loadBefore',
                'history() compared on (tid, user, description)']
-BUDGET = {'quick': {'examples': 3000, 'workers': 8},
-          'thorough': {'examples': 25000, 'workers': 16}}
+BUDGET = {'quick': {'examples': 6000, 'workers': 8},
+          'thorough': {'examples': 40000, 'workers': 16}}
 KINDS = ['fs', 'fs', 'fs', 'mapping', 'demo', 'demo-fs', 'demo-over-mapping', 'demo-over-fs']
 
 
